@@ -284,7 +284,28 @@ MAJOR_OF = {
 }
 
 
-def check_public_writes(run):
+class _Renamed:
+    """Run a rule function with its obligations filed under other rule ids (None = not claimed by the importing property)."""
+    def __init__(self, run, mapping):
+        self._run, self._map = run, mapping
+
+    def __getattr__(self, name):
+        return getattr(self._run, name)
+
+    def ob(self, rule, *a, **kw):
+        r = self._map.get(rule, rule)
+        if r is not None:
+            return self._run.ob(r, *a, **kw)
+
+    def floor(self, rule, *a, **kw):
+        r = self._map.get(rule, rule)
+        if r is not None:
+            return self._run.floor(r, *a, **kw)
+
+
+def check_public_writes(run, rename=None):
+    if rename:
+        run = _Renamed(run, rename)
     facts = run.facts
     cb = facts.enum("CDNS::CborType", rule="R06.3")
     majors = tables.rfc()["cbor"]["majors"]
@@ -372,15 +393,20 @@ def check_public_writes(run):
                     want = MAJOR_OF[nm]
                 elif nm == "write" and f["sig"] == ["bool"]:
                     want = "SIMPLE"
-                    lit = const_value(c["args"][0])
                     tv = tables.rfc()["cbor"]
                     param = f["params"][0]["n"]
-                    gpos = ("nz", "p:%s" % param) in conjuncts(g)
-                    gneg = ("not", ("nz", "p:%s" % param)) in conjuncts(g)
-                    okb = (lit == tv["true"] and gpos) or (lit == tv["false"] and gneg)
-                    run.ob("R06.3", "%s:bool-code(%s)" % (fname, lit), okb, f, c["l"],
-                           "true -> simple 21, false -> simple 20" if okb else
-                           "simple value %s written under guard %s; RFC 8949: false=20, true=21" % (lit, show_f(g)))
+                    # `write_int(value ? 21 : 20, ..)` is the two guarded stores in one expression
+                    alts = [(g, const_value(c["args"][0]))]
+                    if isinstance(a0, dict) and a0.get("k") == "Cond":
+                        cf = ir.cond(a0["c"], env)
+                        alts = [(ir.f_and(g, cf), const_value(a0["a"])), (ir.f_and(g, ir.f_not(cf)), const_value(a0["b"]))]
+                    for ga, lit in alts:
+                        gpos = ("nz", "p:%s" % param) in conjuncts(ga)
+                        gneg = ("not", ("nz", "p:%s" % param)) in conjuncts(ga)
+                        okb = (lit == tv["true"] and gpos) or (lit == tv["false"] and gneg)
+                        run.ob("R06.3", "%s:bool-code(%s)" % (fname, lit), okb, f, c["l"],
+                               "true -> simple 21, false -> simple 20" if okb else
+                               "simple value %s written under guard %s; RFC 8949: false=20, true=21" % (lit, show_f(ga)))
                 elif nm == "write" and f["sig"] and f["sig"][0] in SIGNED:
                     param = f["params"][0]["n"]
                     isneg = any(cj == ("cmp", "<", "p:%s" % param, "0") for cj in conjuncts(g))
